@@ -231,6 +231,38 @@ Fixpoint edits_ok_from (src : list N) (start : nat) (es : list edit) : bool :=
   end.
 Definition edits_ok (src : list N) (es : list edit) : bool := edits_ok_from src 0 es.
 
+
+(* ------------------------------------------------------------------ unreplaced bytes (C08, last clause) *)
+(* byte offset q of the text a batch is applied to lies in no replaced range (an insertion at q goes in front of it) *)
+Definition kept (es : list edit) (q : nat) : bool := forallb (fun e => (q <? e_s e) || (e_e e <=? q)) es.
+
+(* its offset in the text produced by resolve_edits when the loop is at `start` *)
+Fixpoint newpos_from (es : list edit) (start q : nat) : nat :=
+  match es with
+  | [] => q - start
+  | e :: r => if q <? e_s e then q - start else (e_s e - start) + length (e_w e) + newpos_from r (e_e e) q
+  end.
+Definition newpos (es : list edit) (q : nat) : nat := newpos_from es 0 q.
+
+(* follow a byte through accepted batches: its final offset and whether its mapped start is still exact
+   (it never became the first byte of the rewritten text) *)
+Fixpoint track_b (bs : list (list edit)) (p : nat) (ex : bool) : option (nat * bool) :=
+  match bs with
+  | [] => Some (p, ex)
+  | b :: r => if kept b p then let p' := newpos b p in track_b r p' (ex && negb (Nat.eqb p' 0)) else None
+  end.
+
+(* every byte of the original that no batch replaced is still there, its mapped range contains its original range,
+   and its mapped start is its original start unless it became the first byte of the text *)
+Definition unreplaced_b (o c : list N) (m : list nat) (bs : list (list edit)) : bool :=
+  forallb (fun q =>
+    match track_b bs q true with
+    | None => true
+    | Some (p, ex) =>
+        opt_eqb N.eqb (nth_error c p) (nth_error o q) &&
+        (nth p m 0 <=? q) && (S q <=? nth (S p) m 0) && implb ex (Nat.eqb (nth p m 0) q)
+    end) (seq 0 (length o)).
+
 (* ------------------------------------------------------------------ the invariant as a decidable predicate (evaluated on
    the implementation's own output by the correspondence run) *)
 Fixpoint sorted_b (l : list nat) : bool :=
@@ -333,7 +365,10 @@ Definition check_c08 (o : list N) (bs : list (list edit)) (st : list N) (d : opt
       match ms, d with
       | Some s, Some dd =>
           model_dump_eqb s dd &&
-          (if batches_in_scope s0 bs && wf_text o then c08_pred o dd else true)
+          (if batches_in_scope s0 bs && wf_text o then
+             c08_pred o dd &&
+             (if forallb (N.eqb 0) st then unreplaced_b o (d_cur dd) (map N.to_nat (d_m2o dd)) bs else true)
+           else true)
       | None, None => true
       | _, _ => false
       end
